@@ -39,7 +39,7 @@ func StartModelBig(name string) (*Model, error) {
 	if err := cmd.Start(); err != nil {
 		return nil, err
 	}
-	return &Model{cmd: cmd, in: in, out: bufio.NewReaderSize(out, 1<<22)}, nil
+	return &Model{cmd: cmd, in: in, out: bufio.NewReaderSize(out, 1<<22), name: name}, nil // name: AskT restarts the model by name after a timeout
 }
 
 // ---------- symbol table ----------
